@@ -3,6 +3,7 @@ package props
 import (
 	"bytes"
 	"fmt"
+	"github.com/gcash/bchd/chaincfg"
 	"runtime"
 	"runtime/debug"
 	"runtime/metrics"
@@ -154,6 +155,14 @@ func (m *c08mon) done() {
 
 // ------------------------------------------------------------ strings
 
+// c08nets: the six built-in networks plus caller-defined ones whose cash and
+// SLP prefixes differ a lot in length (the decoder slices the input by both).
+var c08nets = append(append([]netInfo{}, allNets...),
+	netInfo{"custom-short-cash-long-slp", &chaincfg.Params{CashAddressPrefix: "bchdev", SlpAddressPrefix: "simpleledgerdevelopment", LegacyPubKeyHashAddrID: 0x6f, LegacyScriptHashAddrID: 0xc4}},
+	netInfo{"custom-long-cash-short-slp", &chaincfg.Params{CashAddressPrefix: "bitcoincashdevelopmentnetwork", SlpAddressPrefix: "s", LegacyPubKeyHashAddrID: 0x6f, LegacyScriptHashAddrID: 0xc4}},
+	netInfo{"custom-one-letter", &chaincfg.Params{CashAddressPrefix: "p", SlpAddressPrefix: "", LegacyPubKeyHashAddrID: 0, LegacyScriptHashAddrID: 5}},
+)
+
 func c08stringCase(c *vf.Ctx, i int) {
 	m := newC08mon(c)
 	defer m.done()
@@ -162,7 +171,7 @@ func c08stringCase(c *vf.Ctx, i int) {
 	c.Nontrivial(vf.HashString(s))
 	d := func() string { return fmt.Sprintf("%q (class %s)", s, class) }
 	n := len(s)
-	for _, net := range allNets {
+	for _, net := range c08nets {
 		net := net
 		m.run("DecodeAddress", n, func() string { return d() + " net=" + net.Name }, func() {
 			a, err := bchutil.DecodeAddress(s, net.P)
